@@ -1,6 +1,7 @@
 import Driver.QueueAcc
 import Driver.AdderAcc
 import Driver.BreakerAcc
+import Driver.PoolAcc
 /-!
 Generic run loop for trace acceptors.  Input: runs separated by `reset …` lines and closed by `end`.
 Output per run: `ACCEPT <run> steps=<n> <summary>` or `REJECT <run> line=<n> :: <line> :: <reason>`;
@@ -74,5 +75,12 @@ def breakerAcceptor : Acceptor BreakerAcc.AccSt where
   pc := fun st t => BreakerAcc.pcName (BreakerAcc.getL st t)
   summary := fun st => s!"steps={st.steps} objs={st.g.objs.length} cur={st.g.cur} wins={st.g.wins.length} buckets={st.g.buckets.length} ghost={st.ghost.reverse}"
   stuck := fun st => st.ls.filterMap (fun (t, l) => match l with | .idle => none | l => some s!"{t}:{BreakerAcc.pcName l}")
+
+def poolAcceptor : Acceptor PoolAcc.AccSt where
+  init := PoolAcc.initSt
+  line := PoolAcc.processLine
+  pc := fun _ _ => "act"
+  summary := fun st => s!"steps={st.steps} candidates={st.ws.length} maxset={st.maxSet}"
+  stuck := fun _ => []
 
 end Driver
